@@ -654,6 +654,26 @@ def gen_joiner_spelling_matrix(pid0):
     return progs
 
 
+def gen_bare_programs(pid0):
+    """Branches that consist of their initial value only (no combinator at all), alone and next to ordinary branches, with and
+    without a handler: the smallest invocations (`join_async! { fut }`) are the ones a special-cased expansion would treat
+    differently (evaluated when the macro expression is evaluated instead of at the first poll; seeded change C09-k)."""
+    progs = []
+    pid = pid0
+    for shape in ((0,), (0, 0), (0, 1), (1, 0), (0, 0, 0), (0, 2, 0)):
+        for handler in (False, True):
+            p = Prog(pid)
+            p.tags = ["rand", "bare"]
+            for extra in shape:
+                steps = [[Act("Src", p.nid())] + [Act("Map", p.nid()) for _ in range(extra)]]
+                p.branches.append({"named": False, "mut": False, "steps": steps})
+            if handler:
+                p.handler = (p.nid(), len(p.branches))
+            progs.append((p, True))
+            pid += 1
+    return progs
+
+
 def gen_names_matrix(pid0, tier, rng):
     """C12, systematic: for small depth profiles (equal and unequal depths) every assignment of {unnamed, `let`, `let mut`}
     to the branches (not all unnamed); every action of every later step carries a capture that reads every name."""
@@ -749,6 +769,8 @@ def build_corpus(tier, seed):
     progs += gen_joiner_spelling_matrix(pid)
     pid = max(p.id for p, _ in progs) + 1
     progs += gen_names_matrix(pid, tier, rng)
+    pid = max(p.id for p, _ in progs) + 1
+    progs += gen_bare_programs(pid)
     return progs
 
 
